@@ -329,6 +329,9 @@ TV = "include/crab/domains/fixed_tvpi_domain.hpp"
 TVC = "crab::domains::fixed_tvpi_domain"
 
 
+from .. import paths   # noqa: E402
+
+
 def r12_tvpi_ghosts(ctx):
     ctx.rule("C03.r12", "fixed_tvpi_domain: the ghost variable G(v) stands for v / COEF. (a) every rewrite helper of an operation that "
              "redefines x redefines or forgets G(x) on every path; (b) each rewrite of x := y op z establishes exactly that meaning: "
@@ -404,6 +407,36 @@ def r12_tvpi_ghosts(ctx):
                 ctx.bad("fixed_tvpi_domain::%s can return without redefining or forgetting the ghost variable of the variable the "
                         "operation redefines: G(x) keeps the quotient of the PREVIOUS value of x and later constraints over x are "
                         "rewritten with it" % fn["name"], fn, r if r is not None else body, sig="tvpi-stale-ghost:%s" % fn["name"])
+        if fn["name"] == "rewrite_assign":
+            # (c) the base domain has already overwritten x: a rewritten right-hand side that mentions x itself reads the new value
+            g = paths.guards(body)
+            for c in walk(body):
+                if not (c.get("k") == "call" and callee(c) and callee(c)["name"] in ("assign", "weak_assign") and
+                        c.get("o") is not None and is_field(obj(c), "m_base_absval") and len(c.get("a", [])) == 2 and
+                        ghost_of(c["a"][0]) == xid and any(is_call(y, name="rewrite_linear_expression") for y in walk(c["a"][1]))):
+                    continue
+
+                def self_ref_atom(cond, d=d, body=body):
+                    c0 = strip(cond)
+                    if isinstance(c0, dict) and c0.get("k") == "ref" and c0.get("rk") == "local":
+                        from ..match import writes_to
+                        ws = writes_to(body, c0["id"])
+                        if any(cmp_parts_eq_x(y) for w in ws for y in walk(w)):
+                            return 1
+                    return 0
+
+                def cmp_parts_eq_x(y):
+                    from ..match import cmp_parts
+                    p = cmp_parts(y)
+                    return bool(p and p[0] == "==" and any(isinstance(strip(z), dict) and strip(z).get("k") == "ref" and
+                                                          strip(z).get("id") == xid for z in (p[1], p[2])))
+                from ..match import guard_truth
+                if guard_truth(g.get(id(c), ()), self_ref_atom, body) is False:
+                    ctx.ok("rewrite_assign: G(x) := rewrite(e) only when the rewritten expression does not mention x", fn, c)
+                else:
+                    ctx.bad("fixed_tvpi_domain::rewrite_assign assigns G(x) := rewrite(e) without having excluded that the rewritten "
+                            "expression mentions x itself (a term COEF*x becomes x): the base domain has already overwritten x, so "
+                            "x := 2*x - 2 records x/2 := x_new - 1", fn, c, sig="tvpi-rewrite-reads-overwritten-x")
         if fn["name"] != "rewrite_apply" or len(fn.get("params", [])) != 5:
             continue
 
@@ -469,6 +502,10 @@ def r12_tvpi_ghosts(ctx):
                 return not cond(e.get("e"), env)
             if k == "lit" and e.get("v") in ("true", "false"):
                 return e["v"] == "true"
+            if k == "call" and e.get("op") in ("==", "!=") and "o" in e and e.get("a"):
+                ids = {z.get("id") for z in (strip(e["o"]), strip(e["a"][0])) if isinstance(z, dict) and z.get("k") == "ref"}
+                if ids == {P_X, P_Y}:
+                    return env["alias"] if e["op"] == "==" else not env["alias"]
             if k == "bin" and e.get("op") in ("==", "!="):
                 r = num(e["L"], env) == num(e["R"], env)
                 return r if e["op"] == "==" else not r
@@ -527,33 +564,42 @@ def r12_tvpi_ghosts(ctx):
             if k == "call" and callee(n) and n.get("o") is not None and is_field(obj(n), "m_base_absval"):
                 nm = callee(n)["name"]
                 a = n.get("a", [])
+                def store(t, v, env=env):
+                    env["vars"][t] = v
+                    if env["alias"]:
+                        other = (t[0], P_Y if t[1] == P_X else P_X)
+                        env["vars"][other] = v
                 if nm == "assign" and len(a) == 2:
-                    env["vars"][target(a[0])] = val(a[1], env)
+                    store(target(a[0]), val(a[1], env))
                     return False
                 if nm == "operator-=" and len(a) == 1:
-                    env["vars"][target(a[0])] = None
+                    store(target(a[0]), None)
                     return False
                 if nm == "apply" and len(a) == 4:
                     o = int(num(a[0], env))
                     l, r = val(a[2], env), num(a[3], env)
-                    env["vars"][target(a[1])] = None if (l is None or o not in OPS or (o == 3 and r == 0)) else OPS[o](l, r)
+                    store(target(a[1]), None if (l is None or o not in OPS or (o == 3 and r == 0)) else OPS[o](l, r))
                     return False
             raise _Unk("statement " + src(n)[:40])
         n_eval = 0
-        for N in (2, 3):
+        for N, alias in ((2, False), (3, False), (2, True)):
             for op in (0, 1, 2, 3, 4):
                 for z in (1, N, 2 * N, -3 * N, N + 1, 5 * N + 1):
                     y = Fraction(5040 * N)
-                    x_old = Fraction(77)
-                    env = {"N": Fraction(N), "z": Fraction(z), "op": op,
+                    x_old = y if alias else Fraction(77)
+                    env = {"N": Fraction(N), "z": Fraction(z), "op": op, "alias": alias,
                            "vars": {("r", P_Y): y, ("g", P_Y): y / N, ("g", P_X): x_old / N}}
                     # the enclosing apply() has already performed the operation on the real variable
                     x_new = OPS[op](y, Fraction(z)) if op in OPS else None
                     env["vars"][("r", P_X)] = x_new
+                    if alias:
+                        # x and y are the same variable: the real y now holds the NEW value, its ghost still the old quotient
+                        env["vars"][("r", P_Y)] = x_new
+                        env["vars"][("g", P_Y)] = x_old / N
                     try:
                         run(body, env)
                     except _Unk as e:
-                        ctx.skipped("C03.r12|id|%d|%d|%d" % (N, op, z), rid="C03.r12")
+                        ctx.skipped("C03.r12|id|%d|%d|%d%s" % (N, op, z, "|alias" if alias else ""), rid="C03.r12")
                         continue
                     n_eval += 1
                     gx, rx = env["vars"].get(("g", P_X)), env["vars"].get(("r", P_X))
@@ -561,19 +607,47 @@ def r12_tvpi_ghosts(ctx):
                     if x_new is not None and rx is not None and rx != x_new:
                         ctx.bad("fixed_tvpi_domain::rewrite_apply: for x := y %s %d with COEF = %d the rewrite gives x the value %s for "
                                 "y = %s, the operation gives %s" % (opn, z, N, rx, y, x_new), fn, body,
-                                sig="tvpi-identity:x:%s:%s" % (opn, "multiple" if z % N == 0 and abs(z) != N else z))
+                                sig="tvpi-identity:x:%s:%s%s" % (opn, "multiple" if z % N == 0 and abs(z) != N else z, ":x-is-y" if alias else ""))
                     elif gx is not None and (x_new is None or gx != x_new / N):
                         ctx.bad("fixed_tvpi_domain::rewrite_apply: for x := y %s %d with COEF = %d the rewrite records G(x) = %s for "
                                 "y = %s, but x / COEF = %s" % (opn, z, N, gx, y, (x_new / N) if x_new is not None else "unknown"), fn, body,
-                                sig="tvpi-identity:ghost:%s:%s" % (opn, "multiple" if z % N == 0 and abs(z) != N else z))
+                                sig="tvpi-identity:ghost:%s:%s%s" % (opn, "multiple" if z % N == 0 and abs(z) != N else z, ":x-is-y" if alias else ""))
                     else:
                         ctx.ok("rewrite_apply: x := y %s %d, COEF %d: G(x) %s" % (opn, z, N, "forgotten" if gx is None else "= x / COEF"),
-                               fn, body, key="C03.r12|id|%d|%d|%d" % (N, op, z))
+                               fn, body, key="C03.r12|id|%d|%d|%d%s" % (N, op, z, "|alias" if alias else ""))
         if n_eval == 0:
             ctx.fail("rule C03.r12: no rewrite of rewrite_apply could be interpreted")
 
 
-RULES += [r12_tvpi_ghosts]
+def r12d_tvpi_integrality(ctx):
+    ctx.rule("C03.r12d", "fixed_tvpi_domain: G(v) = v / COEF is a RATIONAL quantity; when the number type is an integer type the ghost "
+             "variable must not be an integer variable of an integer base domain (which tightens constraints over it as if it were "
+             "integral)", floor=1)
+    fs = [f for f in ctx.db.fns(TV, cpk=TVC) if f["name"] == "get_ghost_var"]
+    if not ctx.need(fs, "fixed_tvpi_domain::get_ghost_var", "C03.r12d"):
+        return
+    seen = set()
+    for fn in fs:
+        if fn.get("cls") in seen:
+            continue
+        seen.add(fn.get("cls"))
+        integer = "z_number" in (fn.get("cls") or "") or "z_" in (fn.get("cls") or "")
+        if not integer:
+            ctx.ok("get_ghost_var over a rational number type", fn, fn["body"])
+            continue
+        body = fn["body"]
+        from ..match import rets
+        same_type = [r for r in rets(body) if any(is_call(y, name="get_type") for y in walk(r))]
+        if same_type:
+            ctx.bad("fixed_tvpi_domain::get_ghost_var creates the ghost of v with v's own (integer) type: G(v) stands for the rational "
+                    "v / COEF, and the integer base domain reasons about it as an integer - a, b in [0,2]; assume(2 - 3a + b == 0) "
+                    "becomes 1 - 3G(a) + G(b) == 0 over integers in [0,1] and the value is bottom although a = b = 1 is a model",
+                    fn, same_type[0], sig="tvpi-ghost-integral")
+        else:
+            ctx.ok("ghost variable not typed as the integer variable", fn, body)
+
+
+RULES += [r12_tvpi_ghosts, r12d_tvpi_integrality]
 
 
 # ------------------------------------------------------------------ disequations with non-unit coefficients
